@@ -7,6 +7,8 @@ package main
 
 import (
 	"fmt"
+	"os"
+	"path/filepath"
 	"sort"
 	"strings"
 	"time"
@@ -22,6 +24,7 @@ import (
 const body = `/^k (\w+)$/ {
   n[$1]++
   g = 7
+  total++
 }
 /^o (\w+)$/ {
   settime(1000)
@@ -36,16 +39,16 @@ const body = `/^k (\w+)$/ {
 type version struct{ id, src string }
 
 var versions = []version{
-	{"V0", "counter n by k\ngauge g\n" + body},
-	{"V0same", "counter n by k\ngauge g\n" + body},
-	{"V1comment", "counter n by k\ngauge g\n" + body + "# a comment\n"},
-	{"V2moved", "# moved down\ncounter n by k\ngauge g\n" + body},
-	{"V3kind", "counter n by k\ncounter g\n" + strings.Replace(body, "g = 7", "g++", 1)},
-	{"V4type", "counter n by k\ngauge g\n" + strings.Replace(body, "g = 7", "g = 7.5", 1)},
-	{"V5keys", "counter n by j\ngauge g\n" + body},
-	{"V6syntax", "counter n by k\ngauge g\n/^k (\\w+)$/ {\n"},
-	{"V7clash", "counter n by k\ngauge g\ncounter other\n" + strings.Replace(body, "g = 7", "g = 7\n  other++", 1)},
-	{"V8body", "counter n by k\ngauge g\n" + strings.Replace(body, "g = 7", "g = 8", 1)},
+	{"V0", "counter n by k\ngauge g\ncounter total\n" + body},
+	{"V0same", "counter n by k\ngauge g\ncounter total\n" + body},
+	{"V1comment", "counter n by k\ngauge g\ncounter total\n" + body + "# a comment\n"},
+	{"V2moved", "# moved down\ncounter n by k\ngauge g\ncounter total\n" + body},
+	{"V3kind", "counter n by k\ncounter g\ncounter total\n" + strings.Replace(body, "g = 7", "g++", 1)},
+	{"V4type", "counter n by k\ngauge g\ncounter total\n" + strings.Replace(body, "g = 7", "g = 7.5", 1)},
+	{"V5keys", "counter n by j\ngauge g\ncounter total\n" + body},
+	{"V6syntax", "counter n by k\ngauge g\ncounter total\n/^k (\\w+)$/ {\n"},
+	{"V7clash", "counter n by k\ngauge g\ncounter total\ncounter other\n" + strings.Replace(body, "g = 7", "g = 7\n  other++", 1)},
+	{"V8body", "counter n by k\ngauge g\ncounter total\n" + strings.Replace(body, "g = 7", "g = 8", 1)},
 }
 
 const otherProg = "gauge other\n/^z$/ {\n  other = 1\n}\n"
@@ -143,36 +146,86 @@ func duplicates(rt *rtx.RT) (string, string) {
 	return "", ""
 }
 
+// variant adjusts every version for a configuration (e.g. a size limit on the dimensioned counter).
+type variant struct {
+	limit  bool // `counter n by k limit 1`
+	viaDir bool // versions are written to a program directory and loaded by LoadAllPrograms
+}
+
+func (v variant) src(s string) string {
+	if v.limit {
+		s = strings.Replace(s, "counter n by k\n", "counter n by k limit 1\n", 1)
+		s = strings.Replace(s, "counter n by j\n", "counter n by j limit 1\n", 1)
+	}
+	return s
+}
+
 type outcome struct {
 	before, after snap // around the last op
 	lastErr       string
 	prevSrc       string // source running before the last op (per the loads that succeeded)
 	failed        []bool // per op: a load that failed
 	dup, dupKey   string
+	inconsistent  string
 	bad           string
 	applic        bool
 }
 
-func execute(ops []op, skip []bool, withOther bool, opts ...runtime.Option) outcome {
+func execute(ops []op, skip []bool, withOther bool, vr variant, opts ...runtime.Option) outcome {
 	o := outcome{applic: true}
 	res := hsx.Exec(400000, func() {
-		rt := rtx.Start("", opts...)
+		dir := ""
+		if vr.viaDir {
+			var err error
+			dir, err = os.MkdirTemp("/dev/shm", "c14.")
+			if err != nil {
+				o.bad = "harness: " + err.Error()
+				return
+			}
+			defer os.RemoveAll(dir)
+			if withOther {
+				_ = os.WriteFile(filepath.Join(dir, "q.mtail"), []byte(otherProg), 0o644)
+			}
+			_ = os.WriteFile(filepath.Join(dir, P), []byte(vr.src(versions[0].src)), 0o644)
+		}
+		rt := rtx.Start(dir, opts...)
 		if rt.Err != nil {
 			o.bad = rt.Err.Error()
 			return
 		}
-		if withOther {
-			if err := rt.Load("q.mtail", otherProg); err != nil {
+		// load through CompileAndRun, or by writing the file and asking for a reload of the directory
+		load := func(name, src string) error {
+			if !vr.viaDir {
+				return rt.Load(name, src)
+			}
+			before := rtx.MapVal(runtime.ProgLoadErrors, name)
+			_ = os.WriteFile(filepath.Join(dir, name), []byte(src), 0o644)
+			if err := rt.LoadAll(); err != nil {
+				return err
+			}
+			if rtx.MapVal(runtime.ProgLoadErrors, name) > before {
+				return fmt.Errorf("load error counted for %s", name)
+			}
+			return nil
+		}
+		if !vr.viaDir {
+			if withOther {
+				if err := rt.Load("q.mtail", otherProg); err != nil {
+					o.bad = "setup: " + err.Error()
+					return
+				}
+			}
+			if err := rt.Load(P, vr.src(versions[0].src)); err != nil {
 				o.bad = "setup: " + err.Error()
 				return
 			}
 		}
-		if err := rt.Load(P, versions[0].src); err != nil {
-			o.bad = "setup: " + err.Error()
+		if _, ok := rt.R.VerifHandles()[P]; !ok {
+			o.bad = "setup: V0 is not running"
 			return
 		}
 		o.after = observe(rt)
-		cur := versions[0].src
+		cur := vr.src(versions[0].src)
 		for i, p := range ops {
 			failed := false
 			if skip == nil || !skip[i] {
@@ -181,11 +234,11 @@ func execute(ops []op, skip []bool, withOther bool, opts ...runtime.Option) outc
 				switch p.kind {
 				case "load":
 					o.prevSrc = cur
-					if err := rt.Load(P, versions[p.ver].src); err != nil {
+					if err := load(P, vr.src(versions[p.ver].src)); err != nil {
 						failed = true
 						o.lastErr = err.Error()
 					} else {
-						cur = versions[p.ver].src
+						cur = vr.src(versions[p.ver].src)
 					}
 				case "line":
 					rt.Line("f", p.line)
@@ -198,7 +251,12 @@ func execute(ops []op, skip []bool, withOther bool, opts ...runtime.Option) outc
 						o.applic = false
 						return
 					}
-					rt.Unload(P)
+					if vr.viaDir {
+						_ = os.Remove(filepath.Join(dir, P))
+						_ = rt.LoadAll()
+					} else {
+						rt.Unload(P)
+					}
 					cur = ""
 				}
 				o.after = observe(rt)
@@ -206,6 +264,11 @@ func execute(ops []op, skip []bool, withOther bool, opts ...runtime.Option) outc
 			o.failed = append(o.failed, failed)
 		}
 		o.dup, o.dupKey = duplicates(rt)
+		for _, m := range rt.ProgMetrics(P) {
+			if s := m.VerifConsistent(); s != "" {
+				o.inconsistent = fmt.Sprintf("metric %s (declared at %s): %s", m.Name, m.Source, s)
+			}
+		}
 	})
 	if a := hsx.Anomaly(res); a != "" && o.bad == "" {
 		o.bad = a
@@ -213,7 +276,7 @@ func execute(ops []op, skip []bool, withOther bool, opts ...runtime.Option) outc
 	return o
 }
 
-func mkConfig(c *vlib.Ctx, cname string, vers []int, lines []string, withOther bool, depth int, opts ...runtime.Option) hsx.Config {
+func mkConfig(c *vlib.Ctx, cname string, vers []int, lines []string, withOther bool, depth int, vr variant, opts ...runtime.Option) hsx.Config {
 	var ops []op
 	for _, v := range vers {
 		ops = append(ops, op{kind: "load", ver: v})
@@ -236,7 +299,7 @@ func mkConfig(c *vlib.Ctx, cname string, vers []int, lines []string, withOther b
 				hs = append(hs, names[x])
 			}
 			hstr := "load(V0) ; " + strings.Join(hs, " ; ")
-			r := execute(h, nil, withOther, opts...)
+			r := execute(h, nil, withOther, vr, opts...)
 			if !r.applic {
 				return hsx.Result{}
 			}
@@ -254,7 +317,7 @@ func mkConfig(c *vlib.Ctx, cname string, vers []int, lines []string, withOther b
 			note := last.kind
 			if last.kind == "load" {
 				v := versions[last.ver]
-				sameSource := r.prevSrc == v.src
+				sameSource := r.prevSrc == vr.src(v.src)
 				switch {
 				case sameSource:
 					note = "load-identical"
@@ -280,7 +343,7 @@ func mkConfig(c *vlib.Ctx, cname string, vers []int, lines []string, withOther b
 					}
 				default:
 					note = "load-ok"
-					if r.after.version != rtx.Fingerprint(v.src) {
+					if r.after.version != rtx.Fingerprint(vr.src(v.src)) {
 						return viol("load-ok-not-running "+v.id, "the load succeeded but the running version is not the loaded source")
 					}
 					// every declaration kept at the same place with the same kind, name, type and keys keeps its data and expiry
@@ -301,6 +364,9 @@ func mkConfig(c *vlib.Ctx, cname string, vers []int, lines []string, withOther b
 			if r.after.other != r.before.other && last.kind != "line" {
 				return viol("other-program-changed", fmt.Sprintf("%s changed the metrics of q.mtail:\nbefore:\n%s\nafter:\n%s", last, r.before.other, r.after.other))
 			}
+			if r.inconsistent != "" {
+				return viol("slice-index-inconsistent", "a metric lists a label set that lookups do not find (or the reverse): "+r.inconsistent)
+			}
 			if r.dup != "" {
 				return hsx.Result{Violation: "history: " + hstr + "\n" + r.dup, VKey: "duplicate-series " + r.dupKey}
 			}
@@ -310,7 +376,7 @@ func mkConfig(c *vlib.Ctx, cname string, vers []int, lines []string, withOther b
 				anyFailed = anyFailed || f
 			}
 			if anyFailed && last.kind != "load" {
-				r2 := execute(h, r.failed, withOther, opts...)
+				r2 := execute(h, r.failed, withOther, vr, opts...)
 				if r2.bad != "" {
 					return viol("anomaly-without-failed-loads", r2.bad)
 				}
@@ -344,16 +410,20 @@ func main() {
 	var cfgs []hsx.Config
 	if c.Quick() {
 		cfgs = append(cfgs,
-			mkConfig(c, "with-other-program/depth4", all, lines, true, 4),
-			mkConfig(c, "alone/core-versions/depth5", []int{1, 2, 3, 4, 6, 9}, []string{"k a", "o a", "d a"}, false, 5),
-			mkConfig(c, "omit-metric-source/depth3", all, []string{"k a", "o a"}, false, 3, runtime.OmitMetricSource()),
+			mkConfig(c, "with-other-program/depth4", all, lines, true, 4, variant{}),
+			mkConfig(c, "alone/core-versions/depth5", []int{1, 2, 3, 4, 6, 9}, []string{"k a", "o a", "d a"}, false, 5, variant{}),
+			mkConfig(c, "with-size-limit/depth4", []int{1, 2, 6, 8, 9}, []string{"k a", "k b", "o a"}, false, 4, variant{limit: true}),
+			mkConfig(c, "via-program-directory/depth3", all, []string{"k a", "o a"}, true, 3, variant{viaDir: true}),
+			mkConfig(c, "omit-metric-source/depth3", all, []string{"k a", "o a"}, false, 3, variant{}, runtime.OmitMetricSource()),
 		)
 	} else {
 		cfgs = append(cfgs,
-			mkConfig(c, "with-other-program/depth5", all, lines, true, 5),
-			mkConfig(c, "alone/depth5", all, lines, false, 5),
-			mkConfig(c, "alone/core-versions/depth7", []int{1, 2, 3, 4, 6, 9}, []string{"k a", "o a", "d a"}, false, 7),
-			mkConfig(c, "omit-metric-source/depth4", all, lines, false, 4, runtime.OmitMetricSource()),
+			mkConfig(c, "with-other-program/depth5", all, lines, true, 5, variant{}),
+			mkConfig(c, "alone/depth5", all, lines, false, 5, variant{}),
+			mkConfig(c, "alone/core-versions/depth7", []int{1, 2, 3, 4, 6, 9}, []string{"k a", "o a", "d a"}, false, 7, variant{}),
+			mkConfig(c, "with-size-limit/depth5", all, lines, false, 5, variant{limit: true}),
+			mkConfig(c, "via-program-directory/depth4", all, lines, true, 4, variant{viaDir: true}),
+			mkConfig(c, "omit-metric-source/depth4", all, lines, false, 4, variant{}, runtime.OmitMetricSource()),
 		)
 	}
 	c.Assume = []string{
